@@ -83,18 +83,22 @@ macro_rules! with_d {
 // logger capturing the debug log (feature `log`)
 // ------------------------------------------------------------------------------------------------
 pub struct CaptureLogger {
-    pub entries: RefCell<Vec<(String, Value)>>,
+    pub entries: RefCell<Vec<(String, ciborium::value::Value)>>,
 }
 impl CaptureLogger {
     pub fn new() -> Self {
         Self { entries: RefCell::new(vec![]) }
     }
-    fn bits(v: &Value) -> Value {
+    /// floats (also NaN and infinities, which JSON cannot carry) as bit patterns
+    fn bits(v: &ciborium::value::Value) -> Value {
+        use ciborium::value::Value as C;
         match v {
-            Value::Array(a) => Value::Array(a.iter().map(Self::bits).collect()),
-            Value::Number(n) => json!(f2b(n.as_f64().unwrap())),
-            Value::Null => json!(f2b(f64::NAN)),
-            other => other.clone(),
+            C::Array(a) => Value::Array(a.iter().map(Self::bits).collect()),
+            C::Float(f) => json!(f2b(*f)),
+            C::Integer(i) => json!(f2b(i128::from(*i) as f64)),
+            C::Bool(b) => json!(b),
+            C::Text(t) => json!(t),
+            _ => Value::Null,
         }
     }
     pub fn to_json(&self) -> Value {
@@ -107,7 +111,7 @@ impl CaptureLogger {
 }
 impl Logger for CaptureLogger {
     fn write<T: serde::Serialize>(&self, msg: &str, data: &T) {
-        let v = serde_json::to_value(data).unwrap_or(Value::Null);
+        let v = ciborium::value::Value::serialized(data).unwrap_or(ciborium::value::Value::Null);
         self.entries.borrow_mut().push((msg.to_string(), v));
     }
 }
@@ -172,38 +176,35 @@ pub fn key_tree(v: &Value) -> Value {
     }
 }
 
-fn num(x: f64) -> Value {
-    serde_json::Number::from_f64(x).map(Value::Number).unwrap_or_else(|| panic!("harness: non-finite float in table"))
-}
-
-/// Build a real `TropicalSubgraphTable` from the bits format through its `Deserialize` impl.
+/// Build a real `TropicalSubgraphTable` from the bits format through its `Deserialize` impl
+/// (via a CBOR value tree, which can carry NaN and infinities).
 pub fn table_from_bits(t: &Value) -> TropicalSubgraphTable {
-    let topology: Vec<Value> = t["edges"]
-        .as_array()
-        .unwrap()
-        .iter()
-        .enumerate()
-        .map(|(i, e)| json!({"edge_id": i, "left": e[0], "right": e[1], "weight": num(b2f(e[2].as_u64().unwrap())), "is_massive": e[3]}))
+    use ciborium::value::Value as C;
+    let txt = |s: &str| C::Text(s.to_string());
+    let int = |v: &Value| C::Integer((v.as_u64().expect("harness: integer")).into());
+    let flt = |v: &Value| C::Float(b2f(v.as_u64().expect("harness: bits")));
+    let boo = |v: &Value| C::Bool(v.as_bool().expect("harness: bool"));
+    let topology: Vec<C> = t["edges"].as_array().unwrap().iter().enumerate()
+        .map(|(i, e)| C::Map(vec![
+            (txt("edge_id"), C::Integer((i as u64).into())), (txt("left"), int(&e[0])), (txt("right"), int(&e[1])),
+            (txt("weight"), flt(&e[2])), (txt("is_massive"), boo(&e[3]))]))
         .collect();
-    let table: Vec<Value> = t["entries"]
-        .as_array()
-        .unwrap()
-        .iter()
-        .map(|e| json!({"loop_number": e[0], "mass_momentum_spanning": e[1], "j_function": num(b2f(e[2].as_u64().unwrap())), "generalized_dod": num(b2f(e[3].as_u64().unwrap()))}))
+    let table: Vec<C> = t["entries"].as_array().unwrap().iter()
+        .map(|e| C::Map(vec![
+            (txt("loop_number"), int(&e[0])), (txt("mass_momentum_spanning"), boo(&e[1])),
+            (txt("j_function"), flt(&e[2])), (txt("generalized_dod"), flt(&e[3]))]))
         .collect();
-    let v = json!({
-        "table": table,
-        "dimension": t["D"],
-        "tropical_graph": {
-            "dod": num(get_f(t, "dod")),
-            "topology": topology,
-            "num_massive_edges": t["numMassive"],
-            "external_vertices": t["ext"],
-            "num_loops": t["numLoops"],
-        },
-        "cached_factor": num(get_f(t, "cached")),
-    });
-    serde_json::from_value(v).expect("harness: table deserialisation")
+    let ext: Vec<C> = t["ext"].as_array().unwrap().iter().map(int).collect();
+    let v = C::Map(vec![
+        (txt("table"), C::Array(table)),
+        (txt("dimension"), int(&t["D"])),
+        (txt("tropical_graph"), C::Map(vec![
+            (txt("dod"), flt(&t["dod"])), (txt("topology"), C::Array(topology)),
+            (txt("num_massive_edges"), int(&t["numMassive"])), (txt("external_vertices"), C::Array(ext)),
+            (txt("num_loops"), int(&t["numLoops"]))])),
+        (txt("cached_factor"), flt(&t["cached"])),
+    ]);
+    v.deserialized().expect("harness: table deserialisation")
 }
 
 fn op_graph(j: &Value) -> Value {
